@@ -442,6 +442,7 @@ void SGal3TangentBase<_Derived>::fillE(
 
   // small angle approx.
   if (theta_sq < Constants<Scalar>::eps) {
+    E.noalias() += so3.hat() / Scalar(6);
     return;
   }
 
